@@ -1686,8 +1686,8 @@ package gedcom
 //@   ghost copied iface
 //@   ghost nSet int = 0
 //@   ghost nAdd int = 0
-//@   oncall DeepCopy#1 check identity-from-left: arg0 == left0 && arg1 == document0
-//@   oncall DeepCopy#1 do r0 = result
+//@   oncall DeepCopy check identity-from-left: arg0 == left0 && arg1 == document0
+//@   oncall DeepCopy do r0 = result
 //@   ghost phase int = 0
 //@   oncall Node.Equals check compares-with-right-child: arg0 == n && arg1 == child
 //@   oncall Node.Equals do phase = 1
@@ -1701,14 +1701,16 @@ package gedcom
 //@   oncall MergeNodeSlices do merged = result
 //@   oncall Node.SetNodes check installs-merge: arg0 == n && arg1 == merged
 //@   oncall Node.SetNodes do nSet = nSet + 1
-//@   oncall DeepCopy#2 check copies-right-child: arg0 == child && arg1 == document
-//@   oncall DeepCopy#2 do copied = result
+// (the copy is made FOR the merged family when the merged node is one: a HUSB /
+// WIFE / CHIL line that only the right has cannot be made without a family)
+//@   oncall deepCopyForFamily check copies-right-child: arg0 == child && arg1 == document && (arg2 == nil || arg2 == data(r0))
+//@   oncall deepCopyForFamily do copied = result
 //@   oncall Node.AddNode check appends-copy: arg0 == r0 && arg1 == copied
 //@   oncall Node.AddNode do nAdd = nAdd + 1
 //@   loop 1 iter every-right-child-once: (nSet - old(nSet)) + (nAdd - old(nAdd)) == 1
 //@   loop 1 nobreak
 //@   ensures identity: implies(isnil(result1), result0 == r0)
-//@   opaque DeepCopy, MergeNodeSlices
+//@   opaque DeepCopy, deepCopyForFamily, MergeNodeSlices
 //@ iface Node.SetNodes(nodes)
 //@   assigns H.gedcom.SimpleNode.children, G.gedcom.nodeCache, alloc
 //@ iface Node.Equals(node2)
@@ -1944,13 +1946,25 @@ package gedcom
 // document, as a plain node - C10's carried-over individuals and families.)
 //@ func DeepCopy
 //@   props C07 C10
+//@   inline
+//@   ghost nWalk int = 0
+//@   ghost out iface
+//@   opaque deepCopyForFamily
+//@   oncall deepCopyForFamily check this-node-into-the-target: arg0 == node && arg1 == document && arg2 == nil
+//@   oncall deepCopyForFamily do nWalk = nWalk + 1; out = result0
+//@   ensures by-the-walk: nWalk == 1 && result0 == out
+// (deepCopyForFamily: the same copy for a node that is going to hang below the
+// given family - MergeNodes hands a right-hand HUSB / WIFE / CHIL line over with
+// the merged family, since fix a family line cannot be made without one)
+//@ func deepCopyForFamily
+//@   props C07 C10
 //@   ghost nWalk int = 0
 //@   ghost out iface
 //@   opaque Filter, IsNil
 //@   oncall Filter check this-node-into-the-target: arg0 == node && arg1 == document
 //@   oncall Filter do nWalk = nWalk + 1; out = result0
 //@   ensures by-the-walk: isnil(result0) || (nWalk == 1 && result0 == out)
-//@ func DeepCopy$1
+//@ func deepCopyForFamily$1
 //@   props C07 C10
 //@   ghost nCopy int = 0
 //@   ghost made iface
